@@ -263,7 +263,7 @@ def gen_sec_case(r):
     if run_as != "suid" and not case.get("padlen") and r.chance(1, 4):
         # pdsh is started by bare name and PATH leads past a third party's look-alike that exec skips; often one module file
         # belongs to that third party and everything else is clean, so that the outcome hangs on whose binary pdsh thinks it is
-        lk = {"elem": r.choice(["", ".", "rel", "abs"]), "owner": r.choice([OTHER, STRANGER]), "kind": r.choice(["file", "file", "dir"])}
+        lk = {"elem": r.choice(["", ".", "rel", "abs"]), "owner": r.choice([OTHER, STRANGER]), "kind": r.choice(["file", "file", "dir"] + (["file700", "file700"] if run_as == "nobody" else []))}
         case["lookup"] = lk
         if r.chance(2, 3):
             fl[0]["owner"], fl[0]["mode"] = lk["owner"], 0o644
